@@ -82,6 +82,7 @@ const (
 	kAddSrv
 	kRmSrv
 	kDelDone
+	kDelAll
 	kElect
 	kDeliverB
 )
@@ -95,7 +96,7 @@ type opDef struct {
 	name  string
 }
 
-func buildOps(counts []uint32, nsNames []string, elect bool, srvs []int) []opDef {
+func buildOps(counts []uint32, nsNames []string, elect bool, srvs []int, delOne, delAll bool) []opDef {
 	var ops []opDef
 	for _, ns := range nsNames {
 		rfs := []uint32{1, 3}
@@ -118,7 +119,12 @@ func buildOps(counts []uint32, nsNames []string, elect bool, srvs []int) []opDef
 		ops = append(ops, opDef{kind: kRmSrv, srv: i, name: "RemoveServer(" + srvNames[i] + ")"})
 	}
 	for _, ns := range nsNames {
-		ops = append(ops, opDef{kind: kDelDone, ns: ns, name: "ShardDeletionCompleted(lowest deleting shard of " + ns + ")"})
+		if delOne {
+			ops = append(ops, opDef{kind: kDelDone, ns: ns, name: "ShardDeletionCompleted(lowest deleting shard of " + ns + ")"})
+		}
+		if delAll {
+			ops = append(ops, opDef{kind: kDelAll, ns: ns, name: "ShardDeletionCompleted(every deleting shard of " + ns + ", ascending id)"})
+		}
 	}
 	for _, ns := range nsNames {
 		if elect {
@@ -403,25 +409,32 @@ func (in *inst) step(d opDef) (bool, *ev.Violation) {
 		}
 		in.servers[d.srv] = false
 		return in.apply(""), nil
-	case kDelDone:
-		st := in.vc.StatusResource().Load()
-		nss, ok := st.Namespaces[d.ns]
-		if !ok {
-			return false, nil
-		}
-		id := int64(-1)
-		for sid, sm := range nss.Shards {
-			if sm.Status == model.ShardStatusDeleting && (id == -1 || sid < id) {
-				id = sid
+	case kDelDone, kDelAll:
+		did := false
+		for {
+			st := in.vc.StatusResource().Load()
+			nss, ok := st.Namespaces[d.ns]
+			if !ok {
+				break
+			}
+			id := int64(-1)
+			for sid, sm := range nss.Shards {
+				if sm.Status == model.ShardStatusDeleting && (id == -1 || sid < id) {
+					id = sid
+				}
+			}
+			if id < 0 {
+				break
+			}
+			in.vc.VerifShardDeleted(d.ns, id)
+			in.checkIds(nil)
+			in.afterPublish()
+			did = true
+			if d.kind == kDelDone {
+				break
 			}
 		}
-		if id < 0 {
-			return false, nil
-		}
-		in.vc.VerifShardDeleted(d.ns, id)
-		in.checkIds(nil)
-		in.afterPublish()
-		return true, nil
+		return did, nil
 	case kElect:
 		st := in.vc.StatusResource().Load()
 		nss, ok := st.Namespaces[d.ns]
@@ -1254,10 +1267,10 @@ func main() {
 		depth    int
 	}
 	alphabets := map[string][]opDef{
-		"full":    buildOps(counts, nsNames, true, []int{0, 1, 2, 3}),
-		"noelect": buildOps(counts, nsNames, false, []int{0, 1, 2, 3}),
+		"full":    buildOps(counts, nsNames, true, []int{0, 1, 2, 3}, true, true),
+		"noelect": buildOps(counts, nsNames, false, []int{0, 1, 2, 3}, false, true),
 		// reduced alphabet for the deepest search: two namespaces (one with anti-affinity), two shard counts, servers s3/s4 only
-		"reduced": buildOps([]uint32{2, 3}, []string{"n1", "n3"}, false, []int{2, 3}),
+		"reduced": buildOps([]uint32{2, 3}, []string{"n1", "n3"}, false, []int{2, 3}, true, true),
 	}
 	var plan []e1
 	if run.Tier == "thorough" {
